@@ -244,6 +244,38 @@ fn eval(e: &Ex, row: &[Value]) -> Value {
     }
 }
 
+/// top-level conjuncts (AND, and NOT over OR via De Morgan)
+fn conjuncts(e: &Ex, out: &mut Vec<Ex>) {
+    match e {
+        Ex::And(a, c) => {
+            conjuncts(a, out);
+            conjuncts(c, out);
+        }
+        Ex::Not(inner) => match inner.as_ref() {
+            Ex::Or(a, c) => {
+                conjuncts(&Ex::Not(a.clone()), out);
+                conjuncts(&Ex::Not(c.clone()), out);
+            }
+            Ex::Not(x) => conjuncts(x, out),
+            _ => out.push(e.clone()),
+        },
+        _ => out.push(e.clone()),
+    }
+}
+
+/// Model of the classified deviation `partition-filter-null-treated-as-true`: a conjunct that only
+/// uses partition columns keeps the file when it evaluates to NULL.
+fn eval_partition_null_as_true(e: &Ex, row: &[Value]) -> bool {
+    let mut cs = vec![];
+    conjuncts(e, &mut cs);
+    cs.iter().all(|c| {
+        let mut used = BTreeSet::new();
+        cols_used(c, &mut used);
+        let v = eval(c, row);
+        v == Value::Bool(true) || (v.is_null() && !used.is_empty() && used.iter().all(|i| *i >= 3))
+    })
+}
+
 fn cols_used(e: &Ex, out: &mut BTreeSet<usize>) {
     match e {
         Ex::Col(i) => {
@@ -854,12 +886,12 @@ fn run_layout(rep: &Report, l: &Layout, seed: u64, n_random: usize, selftest: bo
                         let lost = expect.iter().any(|i| ids.binary_search(i).is_err());
                         let missing: Vec<&DataFile> = members.iter().copied().filter(|m| matching_files.contains(&m.rel) && !out.scanned.contains(&m.rel)).collect();
                         let extra: Vec<i64> = ids.iter().copied().filter(|i| expect.binary_search(i).is_err()).collect();
-                        let mut used = BTreeSet::new();
-                        if let Some(f) = f {
-                            cols_used(f, &mut used);
-                        }
-                        let partition_only = used.iter().all(|i| *i >= 3);
-                        let extra_all_null = f.is_some_and(|f| !extra.is_empty() && extra.iter().all(|i| l.files.iter().flat_map(|df| df.rows.iter()).any(|r| r[0] == Value::Int(*i) && eval(f, r).is_null())));
+                        // does the modelled deviation (NULL partition conjunct keeps the file) reproduce the observation?
+                        let null_model = f.is_some_and(|f| {
+                            let mut m: Vec<i64> = members.iter().flat_map(|df| df.rows.iter()).filter(|r| eval_partition_null_as_true(f, r)).filter_map(|r| if let Value::Int(i) = r[0] { Some(i) } else { None }).collect();
+                            m.sort();
+                            m == ids
+                        });
                         let sig = if f.is_none() {
                             if c.glob.is_some() { "glob-location-covers-wrong-files".to_string() } else { "directory-location-covers-wrong-files".to_string() }
                         } else if lost && !missing.is_empty() && missing.iter().all(|m| !m.canonical) {
@@ -868,7 +900,7 @@ fn run_layout(rep: &Report, l: &Layout, seed: u64, n_random: usize, selftest: bo
                             "matching-file-dropped".to_string()
                         } else if lost {
                             "matching-rows-lost".to_string()
-                        } else if partition_only && extra_all_null {
+                        } else if !extra.is_empty() && null_model {
                             "partition-filter-null-treated-as-true".to_string()
                         } else {
                             "non-matching-rows-returned".to_string()
@@ -954,7 +986,7 @@ async fn direct_api(rep: &Report, l: &Layout, ctx: &SessionContext, root: &std::
         }
         let exprs = vec![expr];
         // the files whose partition values satisfy the filter (partition-only filter: per file)
-        let sat: BTreeSet<String> = members.iter().filter(|df| eval(f, &df.rows[0]) == Value::Bool(true)).map(|df| df.rel.clone()).collect();
+        let sat: BTreeSet<String> = members.iter().filter(|df| df.ext_ok && eval(f, &df.rows[0]) == Value::Bool(true)).map(|df| df.rel.clone()).collect();
         let fp = fp_mix(fpl, fp_mix(0xD1, qi as u64));
         // evaluate_partition_prefix: every satisfying file lies below the prefix
         let prefix = evaluate_partition_prefix(&pcs, &exprs);
@@ -983,7 +1015,7 @@ async fn direct_api(rep: &Report, l: &Layout, ctx: &SessionContext, root: &std::
                     if selftest && qi == 0 {
                         got.pop_first();
                     }
-                    rep.case(fp, got.len() < members.len() && !sat.is_empty());
+                    rep.case(fp, got.len() < members.iter().filter(|m| m.ext_ok).count() && !sat.is_empty());
                     rep.count("pruned_partition_list_calls", 1);
                     let w = |note: &str| json!({"config": {"listing_table_ignore_subdirectory": c.ignore_subdirectory}, "filter": exprs[0].to_string(), "filter_sql": sql, "observed_files": got, "expected_files": sat, "layout": layout_json(l), "note": note});
                     let dropped: Vec<&String> = sat.iter().filter(|s| !got.contains(*s)).collect();
@@ -1028,8 +1060,8 @@ fn run(args: &Args) -> i32 {
         "memcheck" | "tsan" => 10,
         _ => 1,
     };
-    let n_sys = (args.bound("layouts_systematic", 60, 300) / reduce).max(2);
-    let n_rand = args.bound("layouts_random", 120, 3000) / reduce;
+    let n_sys = (args.bound("layouts_systematic", 120, 300) / reduce).max(2);
+    let n_rand = args.bound("layouts_random", 300, 3000) / reduce;
     let n_random_filters = args.bound("random_filters", 4, 10) as usize;
     let spell_counts: std::sync::Mutex<BTreeMap<String, u64>> = Default::default();
     // `--opt layout=N` re-runs one generated layout (same seed)
